@@ -19,6 +19,9 @@ RULES = [
     (r'buffer_\.push_back\(code\);\s*std::string name = std::to_string\(stack_\.back\(\)\.next_index\(\)\);\s*buffer_\.insert\(buffer_\.end\(\), name\.begin\(\), name\.end\(\)\);\s*buffer_\.push_back\(0x00\);',
      'vx_codes++; vx_code = code; vx_code_at = vx_bufsize; vx_push_byte(code); vx_array_name(vx_top.index_++); vx_push_byte(0x00);', 0, 1),
     (r'buffer_\.push_back\(0x00\);\s*for \(auto c : name\)\s*\{\s*buffer_\.push_back\(c\);\s*\}\s*buffer_\.push_back\(0x00\);', 'vx_bufsize += name_len + 2;', 0, 1),
+    (r'buffer_\.push_back\(0x80\);', 'vx_subtype = 0x80; vx_push_byte(0x80);', 0, 1), (r'buffer_\.push_back\(static_cast<uint8_t>\(raw_tag\)\);', 'vx_subtype = (uint8_t)(raw_tag); vx_push_byte((uint8_t)(raw_tag));', 0, 1),
+    (r'for \(auto c : b\)\s*\{\s*buffer_\.push_back\(c\);\s*\}', 'vx_bufsize += payload_len;', 0, 1), (r'std::size_t offset = buffer_\.size\(\);', 'size_t offset = vx_bufsize;', 0, 1),
+    (r'binary::native_to_little\(static_cast<uint32_t>\(length\), buffer_\.begin\(\)\+offset\);', 'vx_patch32((uint32_t)(length), offset);', 0, 1),
     (r'buffer_\.size\(\)', 'vx_bufsize', 0, 4),
     (r'before_value\(', 'before_value(self, ', 0, 12),
     (r'binary::native_to_little\(static_cast<uint32_t>\(val\),\s*std::back_inserter\(buffer_\)\)', 'vx_put_le((uint64_t)(uint32_t)(val), 4)', 0, 2),
@@ -28,7 +31,7 @@ RULES = [
     (r'\(std::numeric_limits<int32_t>::lowest\)\(\)', 'INT32_MIN', 0, 1), (r'\(std::numeric_limits<int32_t>::max\)\(\)', 'INT32_MAX', 0, 2), (r'static_cast<std::size_t>\(', '(size_t)(', 0, 1),
     (r'\bmillis_in_second\b', '1000', 0, 3), (r'val /= nanos_in_milli;', 'val = VX_DIV_NANO(val);', 0, 1), (r'\bnanos_in_milli\b', '1000000', 0, 2), (r'static_cast<uint64_t>\(', '(uint64_t)(', 0, 8),
 ]
-ASG = '*ec_p, vx_div_in, vx_div_out, self->nesting_depth_, vx_top, vx_depth, vx_pushes, vx_pops, vx_bufsize, vx_codes, vx_code, vx_code_patched, vx_code_at, vx_patches, vx_patch_at, vx_patch_val, vx_scalars, vx_scalar, vx_scalar_width, vx_flushes, vx_terminators, vx_names, vx_name_index'
+ASG = '*ec_p, vx_subtype, vx_div_in, vx_div_out, self->nesting_depth_, vx_top, vx_depth, vx_pushes, vx_pops, vx_bufsize, vx_codes, vx_code, vx_code_patched, vx_code_at, vx_patches, vx_patch_at, vx_patch_val, vx_scalars, vx_scalar, vx_scalar_width, vx_flushes, vx_terminators, vx_names, vx_name_index'
 ASG0 = ASG.replace('*ec_p, ', '')
 WF = 'vx_bufsize <= SIZE_MAX / 4 && vx_top.index_ < SIZE_MAX && vx_codes == 0 && vx_patches == 0 && vx_scalars == 0 && vx_flushes == 0 && vx_terminators == 0 && vx_names == 0 && vx_pushes == 0 && vx_pops == 0'
 # representation invariant of an open frame: its four length bytes and (inside a document, after visit_key) the reserved type byte lie inside the buffer
@@ -76,6 +79,11 @@ def INT(signed):
           '&& ((__CPROVER_old(vx_depth) > 0 && tag == semantic_tag_epoch_nano) ==> (*ec_p == 0 && vx_code == %s && vx_scalar_width == 8 && (__CPROVER_old(val) == 0 ? vx_scalar == 0 : (vx_div_in == (uint64_t)__CPROVER_old(val) && vx_scalar == vx_div_out))))' % (dt, dt)),
          ('ensures', '[C06][C08] a datetime never wraps: epoch_milli above 2^63-1 is refused', '(__CPROVER_old(vx_depth) > 0 && tag == semantic_tag_epoch_milli && (__int128)val > (__int128)INT64_MAX) ==> (*ec_p != 0 && vx_scalars == 0)')]
     return c
+def BYTES(raw):
+    return [('requires', WF + ' && (vx_depth == 0 || %s) && payload_len <= (size_t)INT32_MAX' % FRAME), ('assigns', ASG),
+            ('ensures', '[C08] a scalar outside any document is refused', '__CPROVER_old(vx_depth) == 0 ==> (*ec_p == bson_errc_expected_bson_document && vx_patches == 0 && vx_codes == 0)'),
+            ('ensures', '[C06][C08] binary ::= int32 subtype (byte*): the element gets the type byte 0x05, the int32 in front of the subtype byte is the number of payload bytes (subtype not counted), then the subtype (%s) and the payload' % ('the tag given' if raw else '0x80, user defined'),
+             '__CPROVER_old(vx_depth) > 0 ==> (*ec_p == 0 && vx_codes == 1 && vx_code == bson_type_binary_type && vx_patches == 1 && (size_t)vx_patch_val == payload_len && vx_bufsize == vx_patch_at + 4 + 1 + payload_len && vx_subtype == %s)' % ('(uint8_t)raw_tag' if raw else '0x80'))]
 def V(name, anchor, csig, contract, ordinal=0):
     return FuncSpec(name, E, anchor, count=1, csig=csig, contract=contract, aliases=AL, rules=RULES)
 SPECS = [
@@ -87,6 +95,8 @@ SPECS = [
     V('visit_end_object', r'visit_end_object\(const ser_context&, std::error_code& ec\) final', 'void visit_end_object(struct bson_encoder* self, int* ec_p)', END()),
     V('visit_end_array', r'visit_end_array\(const ser_context&, std::error_code& ec\) final', 'void visit_end_array(struct bson_encoder* self, int* ec_p)', END()),
     V('visit_key', r'visit_key\(const string_view_type& name, const ser_context&, std::error_code&\) final', 'void visit_key(struct bson_encoder* self, size_t name_len)', KEY),
+    V('visit_byte_string', r'visit_byte_string\(const byte_string_view& b,\s*semantic_tag,\s*const ser_context&,\s*std::error_code& ec\) final', 'void visit_byte_string(struct bson_encoder* self, size_t payload_len, int* ec_p)', BYTES(False)),
+    V('visit_byte_string_tagged', r'visit_byte_string\(const byte_string_view& b,\s*uint64_t raw_tag,\s*const ser_context&,\s*std::error_code& ec\) final', 'void visit_byte_string_tagged(struct bson_encoder* self, size_t payload_len, uint64_t raw_tag, int* ec_p)', BYTES(True)),
     V('visit_int64', r'visit_int64\(int64_t val,\s*semantic_tag tag,\s*const ser_context&,\s*std::error_code& ec\) final', 'void visit_int64(struct bson_encoder* self, int64_t val, uint8_t tag, int* ec_p)', INT(True)),
     V('visit_uint64', r'visit_uint64\(uint64_t val,\s*semantic_tag tag,\s*const ser_context&,\s*std::error_code& ec\) final', 'void visit_uint64(struct bson_encoder* self, uint64_t val, uint8_t tag, int* ec_p)', INT(False)),
 ]
@@ -98,6 +108,8 @@ HARNESSES = [
     Harness('visit_end_object', 'h_visit_end_object', enforce='visit_end_object', method='LF', props=['C06', 'C08']),
     Harness('visit_end_array', 'h_visit_end_array', enforce='visit_end_array', method='LF', props=['C06', 'C08']),
     Harness('visit_key', 'h_visit_key', enforce='visit_key', method='LF', props=['C06', 'C08']),
+    Harness('visit_byte_string', 'h_visit_byte_string', enforce='visit_byte_string', replace=BV, method='LF', props=['C06', 'C08']),
+    Harness('visit_byte_string_tagged', 'h_visit_byte_string_tagged', enforce='visit_byte_string_tagged', replace=BV, method='LF', props=['C06', 'C08']),
     Harness('visit_int64_none', 'h_visit_int64_none', enforce='visit_int64', replace=BV, method='LF', props=['C06', 'C08', 'C04'], solver='cadical', timeout=900, note='tag fixed to none (one solver query per tag)'),
     Harness('visit_int64_epoch_second', 'h_visit_int64_epoch_second', enforce='visit_int64', replace=BV, method='LF', props=['C06', 'C08', 'C04'], solver='cadical', timeout=900, note='tag fixed to epoch_second (one solver query per tag)'),
     Harness('visit_int64_epoch_milli', 'h_visit_int64_epoch_milli', enforce='visit_int64', replace=BV, method='LF', props=['C06', 'C08', 'C04'], solver='cadical', timeout=900, note='tag fixed to epoch_milli (one solver query per tag)'),
